@@ -66,8 +66,8 @@ sorted element list is a permutation of the channel's `(score, key)` elements an
 theorem hub_pages_concat (rc : RawCfg) (cfg : Cfg) (h : Hub) (ch : Nat) (c : Chan) (limit : Int) (asc : Bool)
     (hres : resolve rc = some cfg) (hc : aget h.chans ch = some c) (hnd : (akeys c.state).Nodup) (hl : 0 < limit) :
     hubPaginate rc h ch limit asc (c.state.length + 1) none []
-      = some ((isort (elemLt (c.dir asc)) c.elems).filterMap (pubOf c), true) ∧
-    ((isort (elemLt (c.dir asc)) c.elems).filterMap (pubOf c)).length = c.state.length ∧
+      = some ((isort (elemLt (c.dir asc)) c.elems).filterMap (statePubOf c), true) ∧
+    ((isort (elemLt (c.dir asc)) c.elems).filterMap (statePubOf c)).length = c.state.length ∧
     (isort (elemLt (c.dir asc)) c.elems).Perm c.elems ∧
     (isort (elemLt (c.dir asc)) c.elems).Pairwise (fun a b => elemLt (c.dir asc) a b = true) :=
   MapHub.hub_pages_concat rc cfg h ch c limit asc hres hc hnd hl
